@@ -579,6 +579,17 @@ func checkC16(e *Env, r *Report) {
 		nSig++
 	}
 	r.Coverage["signal_histories"] = nSig
+	// rlimit histories: several limits of one resource for one profile (values of different lengths)
+	for hi, vals := range [][]string{{"524288", "8192", "1048576"}, {"8192", "1048576"}, {"70", "9", "100"}, {"infinity", "1024"}} {
+		prof := "rlim" + lettersOf(hi+1)
+		for k, v := range vals {
+			line := fmt.Sprintf(`type=AVC msg=audit(17200%05d.%03d:%d): apparmor="ALLOWED" operation="setrlimit" class="rlimits" profile="%s" pid=%d comm="cmd" rlimit=nofile value=%s`, hi, k, hi*10+k, prof, 6000+hi, v)
+			want := map[string]any{"kind": "rlimit", "qual": "", "mask": []string{}, "ownereligible": false, "tokens": []string{"nofile", v}, "name": "", "profile": prof}
+			batch = append(batch, line)
+			pend = append(pend, pending{want: want, name: "", t: ruleTuple{Cls: "rlimits", Mask: v, Verdict: "ALLOWED"}, hist: fmt.Sprintf("rlimhist:%v", vals)})
+		}
+		flush()
+	}
 	nWant += len(recs)
 	n := 0
 	for _, t := range tuples {
